@@ -198,8 +198,8 @@ Definition with_follow (r : rstate) (f : follow) : rstate :=
 (* ---------------------------------------------------------------- request parsers *)
 Definition dmarker (s : string) : option (string * mkind) :=
   match split "=" s with
-  | [d; "R"] => let? dn := dstr d in Some (dn, MRestricted)
-  | [d; "U"] => let? dn := dstr d in Some (dn, MOther)
+  | [d; "R"] | [d; "Ra"] | [d; "Rp"] | [d; "Rc"] | [d; "Rd"] => let? dn := dstr d in Some (dn, MRestricted)
+  | [d; "U"] | [d; "Ua"] | [d; "Ud"] => let? dn := dstr d in Some (dn, MOther)
   | _ => None
   end.
 Definition dattr (s : string) : option (string * list string) :=
@@ -346,6 +346,11 @@ Definition step_line (r : rstate) (raw : string) : rstate * list string :=
       | Some m => finish r line false (instantiate e st m)
       | None => (r, malformed line)
       end
+    | "INSTF", funds :: _sender :: rest =>          (* instantiate with funds attached: they play no part *)
+      match dlist dcoin funds, dinst rest with
+      | Some _, Some m => finish r line false (instantiate e st m)
+      | _, _ => (r, malformed line)
+      end
     | "EXEC", sender :: funds :: kind :: rest =>
       match dstr sender, dlist dcoin funds, dexec kind rest with
       | Some s, Some f, Some m => finish r line false (execute fx e st s f m)
@@ -414,7 +419,7 @@ Definition step_line (r : rstate) (raw : string) : rstate * list string :=
 
 (* follow-mode wrapper: processes the dump lines of the implementation's trace *)
 Definition adoptable (kw : string) : bool :=
-  mem kw ["INST"; "EXEC"; "MIGRATE"; "SEEDVER"; "SEEDNOVER"; "SEEDCFG"; "SEEDASK"; "SEEDBID3"; "SEEDBID2"].
+  mem kw ["INST"; "INSTF"; "EXEC"; "MIGRATE"; "SEEDVER"; "SEEDNOVER"; "SEEDCFG"; "SEEDASK"; "SEEDBID3"; "SEEDBID2"].
 Definition run_line (r : rstate) (raw : string) : rstate * list string :=
   let f := rs_follow r in
   if negb (fo_on f) then
